@@ -299,6 +299,10 @@ func runRolloutWithCut(scn *Scn, f Factory, edits []int, midSyncs int, ogStyle i
 				p, _ := req["parent"].(map[string]any)
 				v, _ := getPath(p, "spec.template.v")
 				isLatest := vs.JSONEqual(v, latestV)
+				if plan.Kind == "hook-429" {
+					// the hook is overloaded: every per-revision call of this sync is told to come back in 7 s
+					return HookResponse{Code: 429, Body: []byte("slow down"), Header: http.Header{"Retry-After": []string{"7"}}}
+				}
 				if (plan.Kind == "hook-latest") == isLatest {
 					return HookResponse{Code: 503, Body: []byte("unavailable")}
 				}
@@ -342,6 +346,31 @@ func runRolloutWithCut(scn *Scn, f Factory, edits []int, midSyncs int, ogStyle i
 			for _, h := range t.Hooks {
 				if h.Response.Code == 503 {
 					failed = true
+				}
+			}
+			if plan.Kind == "hook-429" {
+				n429 := 0
+				for _, h := range t.Hooks {
+					if h.Response.Code == 429 {
+						n429++
+					}
+				}
+				if n429 > 0 {
+					c.Class("hook-429-for-%d-revision-calls", n429)
+					after := false
+					for _, q := range t.Queue {
+						if q.Op == "AddAfter" && q.Delay == 7*time.Second {
+							after = true
+						}
+					}
+					if !after || t.Err != nil {
+						return t, withTrace(vs.Violf("C12/429-not-requeued-after-delay", "%d per-revision hook call(s) of one sync were answered 429 with Retry-After: 7; the parent must be queued again after 7 s and the sync must not count as failed, but the sync returned %v and the queue saw %v", n429, t.Err, t.Queue), t)
+					}
+					for _, r := range t.Reqs {
+						if isChildWrite(env, r) || (isRevWrite(r) && !isOwnershipEdit(r)) {
+							return t, withTrace(vs.Violf("C09/acted-on-partial-hook-results", "every hook call was answered 429, yet the sync issued %s", r.String()), t)
+						}
+					}
 				}
 			}
 			if failed {
@@ -554,7 +583,7 @@ func PropC09(c *vs.Case, f Factory, o RolloutOpts) error {
 	if len(cuts) == 0 {
 		return nil
 	}
-	kinds := []string{"crash", "err500", "lost-response", "conflict", "hook-old", "hook-latest", "stale-revisions"}
+	kinds := []string{"crash", "err500", "lost-response", "conflict", "hook-old", "hook-latest", "stale-revisions", "hook-429"}
 	ct := cuts[c.Int(len(cuts))]
 	kind := kinds[c.Int(len(kinds))]
 	if orphaned && c.Bool() {
